@@ -13,6 +13,7 @@ TECHNIQUE = 'value-flow normal form vs closed-form specification table; taint (d
 D = 'distributions::'
 HALF = N(1) if False else T.div(T.ONE, N(2))
 PI = S('pi')
+GC = {'graph_cuts_visible': True}   # detach/inner/from_inner stay visible: they change gradients, not values
 
 
 def need(ctx, oid, desc, **kw):
@@ -47,11 +48,11 @@ def gaussian2d(ctx):
     b2 = need(ctx, 'C15.g2.unnorm', A2, name='unnorm_logp', trait=D + 'Target', self_head=D + 'Gaussian2D')
     lp = un = None
     if b2 is not None:
-        un = ctx.evaluate(b2).ret_term
+        un = ctx.evaluate(b2, opts=GC).ret_term
         ctx.eq('C15.g2.unnorm', A2, 'value', un, T.mul(T.neg(HALF), quad[0]), alts=[T.mul(T.neg(HALF), quad[1])],
                why='unnormalised 2-D Gaussian log-density: -1/2 d^T Sigma^-1 d with Sigma^-1 = adj(Sigma)/det', sp=b2['sp'])
     if b1 is not None:
-        lp = ctx.evaluate(b1).ret_term
+        lp = ctx.evaluate(b1, opts=GC).ret_term
         exps = []
         for qf in quad:
             for ld in (T.app('ln', T.app('abs', det)), T.app('ln', det)):
@@ -93,7 +94,7 @@ def diffable(ctx):
     A1 = '<DiffableGaussian2D as BatchedGradientTarget>::unnorm_logp_batch'
     b1 = need(ctx, 'C15.dg.batch', A1, name='unnorm_logp_batch', trait=D + 'BatchedGradientTarget', self_head=DG)
     if b1 is not None:
-        found = erase_shapes(ctx.evaluate(b1).ret_term)
+        found = erase_shapes(ctx.evaluate(b1, opts=GC).ret_term)
         X = S('positions')
         delta = T.sub(X, mrow)
         exp = T.sub(nc, T.mul(HALF, T.app('sum_dim', T.mul(T.app('matmul', delta, sig), delta), N(1))))
@@ -102,7 +103,7 @@ def diffable(ctx):
     A2 = '<DiffableGaussian2D as GradientTarget>::unnorm_logp'
     b2 = need(ctx, 'C15.dg.single', A2, name='unnorm_logp', trait=D + 'GradientTarget', self_head=DG)
     if b2 is not None:
-        found = erase_shapes(ctx.evaluate(b2).ret_term)
+        found = erase_shapes(ctx.evaluate(b2, opts=GC).ret_term)
         X = S('position')
         delta = T.sub(X, mrow)
         exp = T.sub(nc, T.mul(HALF, T.app('sum', T.mul(T.app('matmul', delta, sig), delta))))
@@ -135,14 +136,14 @@ def rosenbrock(ctx):
 
         def col(lo, hi):
             return T.app('slice', X, T.app('array', T.app('range', N(0), n), T.app('range', lo, hi)))
-        found = erase_shapes(ctx.evaluate(b1).ret_term)
+        found = erase_shapes(ctx.evaluate(b1, opts=GC).ret_term)
         ctx.eq('C15.ros.2d_batch', A1, 'value', found, ros2(col(N(0), N(1)), col(N(1), N(2))),
                why='-((a - x0)^2 + b (x1 - x0^2)^2) per row, x0/x1 = columns 0/1', sp=b1['sp'])
     A2 = '<Rosenbrock2D as GradientTarget>::unnorm_logp'
     b2 = need(ctx, 'C15.ros.2d_single', A2, name='unnorm_logp', trait=D + 'GradientTarget', self_head=R2)
     if b2 is not None:
         X = S('position')
-        found = erase_shapes(ctx.evaluate(b2).ret_term)
+        found = erase_shapes(ctx.evaluate(b2, opts=GC).ret_term)
         ctx.eq('C15.ros.2d_single', A2, 'value', found, ros2(T.app('slice', X, T.app('range', N(0), N(1))), T.app('slice', X, T.app('range', N(1), N(2)))),
                why='-((a - x0)^2 + b (x1 - x0^2)^2)', sp=b2['sp'])
     A3 = '<RosenbrockND as BatchedGradientTarget>::unnorm_logp_batch'
@@ -154,7 +155,7 @@ def rosenbrock(ctx):
         low = T.app('slice', X, T.app('array', T.app('range', N(0), k), T.app('range', N(0), T.sub(n, T.ONE))))
         high = T.app('slice', X, T.app('array', T.app('range', N(0), k), T.app('range', N(1), n)))
         body = T.add(T.mul(N(100), T.powi(T.sub(high, T.powi(low, 2)), 2)), T.powi(T.sub(T.ONE, low), 2))
-        found = erase_shapes(ctx.evaluate(b3).ret_term)
+        found = erase_shapes(ctx.evaluate(b3, opts=GC).ret_term)
         ctx.eq('C15.ros.nd', A3, 'value', found, T.neg(T.app('sum_dim', body, N(1))),
                why='-sum_i [100 (x_{i+1} - x_i^2)^2 + (1 - x_i)^2], reduced along the coordinate axis (dim 1)', sp=b3['sp'])
 
@@ -164,11 +165,13 @@ def gradient(ctx):
     b = need(ctx, 'C15.grad', A, name='unnorm_logp_and_grad', trait=D + 'GradientTarget', container='trait')
     if b is None:
         return
-    ev = ctx.evaluate(b)
+    ev = ctx.evaluate(b, opts=GC)
     pos = S('position')
-    ulp = T.app(D + 'GradientTarget::unnorm_logp', S('self'), pos)
-    ctx.eq('C15.grad', A, 'value', ev.ret_term, T.tup(ulp, T.app('grad', ulp, pos)),
-           why='returns (logp(x), d logp / d x): gradient of the very value returned, w.r.t. the leaf it was evaluated on (value-wise the given position)', sp=b['sp'])
+    leaf = T.app('detach', pos)
+    ulp = T.app(D + 'GradientTarget::unnorm_logp', S('self'), leaf)
+    ctx.eq('C15.grad', A, 'value', ev.ret_term, T.tup(ulp, T.app('from_inner', T.app('grad', ulp, leaf))),
+           why='returns (logp(x), d logp / d x): the density is evaluated on a fresh leaf (detached copy of the position, gradient required) and the gradient is that of the very value returned, '
+               'with respect to that leaf; no other graph cut on the path', sp=b['sp'])
     calls = ev.events(lambda e: e.key == D + 'GradientTarget::unnorm_logp')
     ctx.check('C15.grad.once', A, 'evaluations', len(calls) == 1, expected='density evaluated once', found=str(len(calls)), sp=b['sp'],
               why='value and gradient must come from the same evaluation')
